@@ -5,7 +5,7 @@
    every explored output. *)
 From Coq Require Import Arith ZArith List Bool Lia Permutation.
 Import ListNotations.
-From SCK Require Import Argsort StrictB DA FlowModel Mwcs MwcsProof MwcsOpt GS2 GSInst GSFinal Irving IrvProof IrvRot StableCheck.
+From SCK Require Import Argsort StrictB DA FlowModel Mwcs MwcsProof MwcsOpt GS2 GSInst GSFinal Irving IrvProof IrvRot IrvStable IrvBridge StableCheck.
 
 (* (a) the first stage is a stable matching of the instance and it is man-optimal *)
 Theorem C03_partial_start_is_man_optimal : forall P1 P2 V1 V2 ff t,
@@ -49,6 +49,25 @@ Theorem C03_partial_final_value : forall P1 P2 V1 V2 ff t,
              pvalue V1 V2 M' = (pvalue V1 V2 (t_M0 t) + zsum (fun i => nth i (t_ws t) 0%Z) (t_S t))%Z.
 Proof. exact irving_elimination_sound. Qed.
 Print Assumptions C03_partial_final_value.
+
+(* (c') eliminating a rotation that is exposed in a stable matching - each man's next woman is the first one after his wife
+   who prefers him to her own husband - yields a stable matching again; for every strict instance and every sequence of
+   rotations each exposed in the matching it is eliminated from (no bound on n) *)
+Theorem C03_partial_elimination_keeps_stability : forall P1 P2 rts M,
+  pstable P1 P2 M -> strict_on P1 M -> exposed_full_all P1 P2 M rts ->
+  exists M', eliminate M rts = Some M' /\ pstable P1 P2 M'.
+Proof. exact eliminate_all_keeps_stable. Qed.
+Print Assumptions C03_partial_elimination_keeps_stability.
+(* ... hence the matching returned by a run whose hypotheses were evaluated by the kernel (stab_hyp in RunIrv.v, on every
+   explored case of any size) is stable in the sense of the property's statement *)
+Theorem C03_partial_final_matching_stable : forall P1 P2 V1 V2 ff t, let n := length P1 in
+  irving P1 P2 V1 V2 ff = Some t ->
+  perfect_b n (map fst (t_M0 t)) = true -> perfect_b n (map snd (t_M0 t)) = true ->
+  pstableb P1 P2 (t_M0 t) = true -> strict_onb P1 (t_M0 t) = true ->
+  exposed_full_allb P1 P2 (t_M0 t) (map (fun i => nth i (t_rots t) []) (t_S t)) = true ->
+  exists M', t_out t = Some M' /\ stable P1 P2 n (wives n M').
+Proof. exact irving_final_stable_wives. Qed.
+Print Assumptions C03_partial_final_matching_stable.
 
 (* (f) the checker evaluated on explored outputs decides exactly the property's statement: sigma (the list of
    wives) is a perfect matching, has no blocking pair w.r.t. the ordinal profiles, and no stable matching of
